@@ -59,6 +59,15 @@ macro_rules! four {
 pub fn run(line: &str) -> String {
     let w: Vec<&str> = line.split_whitespace().collect();
     match w[0] {
+        "@ast" => {
+            // the Debug rendering of what the real parser produces for the rest of the line (consumed by mirsym/astimport.py)
+            let code = line["@ast".len()..].trim();
+            match noulith::parse(code) {
+                Ok(Some(e)) => format!("AST {:?}", e),
+                Ok(None) => "AST-EMPTY".to_string(),
+                Err(e) => format!("AST-ERR {}", e.render(code)),
+            }
+        }
         "@nint" => {
             let (op, variant) = (w[1], w[2]);
             let x = parse_num(w[3]).into_nint().expect("int");
